@@ -97,6 +97,17 @@ CreateWrite(d, n, c) ==   \* open(O_CREAT) + write: IN_CREATE, IN_MODIFY
   /\ Emit(d, gen[d], <<Ev("create", d, n), Ev("write", d, n)>>)
   /\ UNCHANGED <<exists, gen, away, watches>> /\ CacheUnch /\ Rec(Act("createwrite", d, n, c, 0, {}, FALSE))
 
+\* the same operation as its two system calls (used by the trace specification only: fsnotify's reader may
+\* read the kernel queue between them, which changes what is merged with what later on)
+CreateFirst(d, n, c) ==
+  /\ FsBudget /\ exists[d] /\ files[d][n] = 0
+  /\ files' = [files EXCEPT ![d][n] = c]
+  /\ Emit(d, gen[d], <<Ev("create", d, n)>>)
+  /\ UNCHANGED <<exists, gen, away, watches>> /\ CacheUnch /\ Rec(Act("createwrite", d, n, c, 0, {}, FALSE))
+WriteSecond(d, n) ==
+  /\ Emit(d, gen[d], <<Ev("write", d, n)>>)
+  /\ UNCHANGED <<exists, gen, files, away, watches, fsops, hist>> /\ CacheUnch
+
 Rewrite(d, n, c) ==       \* rewritten in place: one IN_MODIFY per truncation / write call (one or two here)
   /\ FsBudget /\ exists[d] /\ files[d][n] # 0 /\ files[d][n] # c
   /\ files' = [files EXCEPT ![d][n] = c]
